@@ -31,7 +31,8 @@ Anchors (all under `liquid/`), mirrored as written:
                  "circular extends"; a template without `extends` ends the walk; `assert base`);
                  `base.render_with_context(context)`; `tag_namespace["extends"].clear()`; `raise StopRender`.
                  `BlockNode.render_to_output`: no stack for the name → `context.extend({"block": …})` and the own
-                 body; else `context.copy(block_scope=True)` (no disabled tags) and the body of `stack[0]`.
+                 body; else `context.copy(block_scope=True, disabled_tags=context.disabled_tags)` (repo fix c3aa6de: the
+                 overriding block keeps the tags disabled where the block stands) and the body of `stack[0]`.
 
 Abstracted: expressions are already evaluated (an `if`-like block that is not taken is simply absent, a `for`
 carries its length), output is reduced to the sequence of `probe` executions (an output statement
@@ -320,7 +321,7 @@ def render (E : Env) (c : Cx) (s : St) : Node → Res
         renderList E { c with scope := c.scope + 1, frames := c.frames + kCall, path := c.path + 1 } s body
       | d :: _ =>
         if _h : c.copyDepth > E.depth then ⟨[], s, .err .contextDepth⟩ else
-        let r := renderList E (c.copied false false c.tname kCall) ⟨[], s.stacks⟩ d
+        let r := renderList E (c.copied c.noInclude c.noBlock c.tname kCall) ⟨[], s.stacks⟩ d
         ⟨r.evs, { s with stacks := r.st.stacks }, r.out⟩
 termination_by n => (E.depth + 2 - c.copyDepth, E.depth + 2 - c.scope, sizeOf n, 0)
 decreasing_by all_goals (simp_wf; simp only [Prod.lex_def, Cx.copied, true_and]; omega)
